@@ -7,7 +7,6 @@ import (
 	"github.com/tendermint/tendermint/libs/kv"
 
 	"github.com/Oneledger/protocol/action"
-	"github.com/Oneledger/protocol/action/helpers"
 	gov "github.com/Oneledger/protocol/data/governance"
 )
 
@@ -132,12 +131,10 @@ func runVote(ctx *action.Context, tx action.RawTx) (bool, action.Response) {
 		}
 	}
 
-	// Peek vote result based on collected votes so far
-	options, err := ctx.GovernanceStore.GetProposalOptionsByType(proposal.Type)
-	if err != nil {
-		helpers.LogAndReturnFalse(ctx.Logger, gov.ErrGetProposalOptions, vote.Tags(), err)
-	}
-	stat, err := pms.ProposalVote.ResultSoFar(vote.ProposalID, options.PassPercentage)
+	// Peek vote result based on collected votes so far, against the pass percentage recorded in
+	// the proposal when it was created (finalisation tallies against the same number; the option
+	// may have been changed by governance in the meantime)
+	stat, err := pms.ProposalVote.ResultSoFar(vote.ProposalID, proposal.PassPercentage)
 	if err != nil {
 		return false, action.Response{
 			Log: gov.ErrPeekingVoteResult.Wrap(err).Marshal(),
